@@ -58,3 +58,53 @@ Proof.
   destruct Sim as (_ & _ & _ & (_ & _ & _ & _ & Hfull)). destruct (Hfull eq_refl) as (_ & _ & Hst). rewrite Hst.
   apply (stats_complete_quiescent (cfg pc) sched k Hd Hk).
 Qed.
+
+(* the same for ANY symbol entry points (fill_symbol / walk_frame / get_symbol_at_address per lookup): every configuration of
+   the program whose key lists are the unfolded strategies *)
+Lemma adaptive_source_any_entry : forall (N : nat) (ac : aconfig) (fuel : nat) (pc : pconfig) (sched : list task),
+  N < fuel -> Forall (fun sg => ends N (outc (abase ac)) sg [] = true) (astrats ac) ->
+  sym_only pc -> cfg pc = fixed_config N ac ->
+  sh_eq true (psh (prun src_program pc sched)) (ash (arun fuel ac sched)) /\
+  pall_done pc (prun src_program pc sched) = aall_done ac (arun fuel ac sched).
+Proof.
+  intros N ac fuel pc sched H1 H2 Hs Hc.
+  pose proof (src_refines true pc sched (fun _ => Hs)) as Sim.
+  destruct (adaptive_refines N ac fuel H1 H2 sched) as (E & _ & _ & D).
+  split.
+  - destruct Sim as (_ & _ & _ & S). rewrite Hc in S. rewrite E. exact S.
+  - rewrite (pall_done_abs true _ _ _ Sim). rewrite Hc. symmetry. exact D.
+Qed.
+
+(* the processor: when the lookups of every thread walk are what adaptive strategies (the unwinder deciding from the
+   answers it got) unfold to, the processor's run on the regenerated program and walker has the adaptive run's shared state *)
+From RM Require Import C12.ProcModel C12.ProcProofs Gen.C12Processor.
+Lemma adaptive_processor : forall (N : nat) (ac : aconfig) (fuel : nat) (d : dump) (sched : list task),
+  N < fuel -> Forall (fun sg => ends N (outc (abase ac)) sg [] = true) (astrats ac) ->
+  walk_ok d -> cfg (proc_pc src_walker d (abase ac)) = fixed_config N ac ->
+  sh_eq true (psh (prun src_program (proc_pc src_walker d (abase ac)) sched)) (ash (arun fuel ac sched)) /\
+  pall_done (proc_pc src_walker d (abase ac)) (prun src_program (proc_pc src_walker d (abase ac)) sched) =
+    aall_done ac (arun fuel ac sched).
+Proof.
+  intros N ac fuel d sched H1 H2 Hok Hc.
+  apply (adaptive_source_any_entry N ac fuel _ sched H1 H2); [|exact Hc].
+  rewrite src_walker_is_canon. apply canon_sym_only. exact Hok.
+Qed.
+
+(* non-vacuity: two threads whose unwinder asks for module 0 and then, having got no symbols, scans into module 2 *)
+Definition ex_strat2 : strat :=
+  fun acc => match acc with
+             | [] => Some 0 | [_] => Some 0
+             | [_; (_, OOk)] => Some 1 | [_; _] => Some 2
+             | [_; _; _] => Some 2
+             | _ => None
+             end.
+Definition ex_ac2 : aconfig :=
+  {| astrats := [ex_strat2; ex_strat2];
+     abase := {| tasks := []; susp := fun k => 1; outc := fun k => if Nat.eqb k 0 then OParse else OOk; leaf := fun k => k |} |}.
+Definition ex_dump2 : dump :=
+  [ [ {| f_module := Some 0; f_caller := [(EWalk, 0)] |}; {| f_module := Some 2; f_caller := [(EWalk, 2)] |} ];
+    [ {| f_module := Some 0; f_caller := [(EWalk, 0)] |}; {| f_module := Some 2; f_caller := [(EWalk, 2)] |} ] ].
+Lemma ex_adaptive_processor :
+  Forall (fun sg => ends 4 (outc (abase ex_ac2)) sg [] = true) (astrats ex_ac2) /\ walk_ok ex_dump2 /\
+  cfg (proc_pc src_walker ex_dump2 (abase ex_ac2)) = fixed_config 4 ex_ac2.
+Proof. split; [repeat constructor|]. split; [repeat constructor|]. reflexivity. Qed.
